@@ -316,9 +316,9 @@ func TestVerifC14RHP2(t *testing.T) {
 		return c, h.node.Contracts.SectorRoots(h.cid)
 	}
 	sectors := map[types.Hash256][]byte{} // what the renter uploaded
-	newSector := func(rng *rand.Rand) []byte {
+	newSector := func(rng *rand.Rand) []byte { // from a small pool, so that the volume never fills up
 		b := make([]byte, rhp2.SectorSize)
-		rng.Read(b[:64])
+		b[0], b[1], b[500] = byte(rng.Intn(16)), 0x77, 0x99
 		return b
 	}
 	safeCost := func(f func() (rhp2.RPCCost, error)) (c rhp2.RPCCost, err error) {
